@@ -62,7 +62,7 @@ TRUSTED_BASE = ["Lean 4.33 kernel", "axioms: propext, Classical.choice, Quot.sou
                 "tokio paused clock for the 15 s executor timeouts; in-memory yamux substreams"]
 ASSUMPTIONS = ["every accepted dial is concluded, every accepted substream open is answered, every executor future completes "
                "(by reply, close or its timeout) - the real transport manager breaks the first one when the node is at its "
-               "outgoing-connection limit (known finding dial-at-connection-limit-never-concluded, S2 witness in the corpus)",
+               "outgoing-connection limit (defect dial-at-connection-limit-never-concluded, repaired by a fix: commit; S2 witness in the corpus)",
                "ConnectionEstablished is only delivered for a peer without connection, substream events only for open connections",
                "query ids are unique (shared atomic counter of the handle)",
                "a lookup whose pending set is empty yields an action (C15 terminates)"]
@@ -251,7 +251,7 @@ def corpus():
         ["net g g", "add_known_peer 1", "put_record_to 1 1 one", "established 1", "subfail #0", "settle"],
         ["net g g", "add_known_peer 1", "find_node 5", "established 1", "subopen #0", "reply #0 garbage", "settle"],
         ["net g g", "add_known_peer 1", "get_providers 3", "established 1", "subopen #0", "reply #0 addprov", "settle"],
-        # S2 witness of the known finding `dial-at-connection-limit-never-concluded` (real nodes, ~15 s)
+        # S2 witness of the repaired defect `dial-at-connection-limit-never-concluded` (real nodes)
         [S2_LIMIT_WITNESS],
     ]
 
@@ -268,14 +268,12 @@ def s2_cases(rng, tier):
     the `limit` witness is in the corpus); thorough/search: every fault x operation x quorum (the `limit` ones wait
     12 s for the terminal event that never comes)."""
     if tier == "quick":
-        return [[f"s2 fault={f} op=put_to quorum=all"] for f in ("none", "undialable", "refused")]
+        return [[f"s2 fault={f} op=put_to quorum=all"] for f in ("none", "undialable", "refused", "limit")]
     res = []
     for f in S2_FAULTS:
         for op in S2_OPS:
             for q in (QUORUMS if op != "find_node" else ["one"]):
-                if f == "limit" and (op, q) not in (("put_to", "one"), ("find_node", "one"), ("start_providing", "all")):
-                    continue
-                res.append([f"s2 fault={f} op={op} quorum={q}" + (" wait=12" if f == "limit" else "")])
+                res.append([f"s2 fault={f} op={op} quorum={q}"])
     return res
 
 
@@ -478,8 +476,7 @@ def nontrivial(case, out):
 def matches_known(k, v):
     """Only the S2 `limit` placement without terminal event matches the known finding; every other violation (also a
     missing terminal event under any other fault placement, or in S1) is reported."""
-    sig = k.get("signature", {})
-    return (v.get("kind") == sig.get("kind") == "no-terminal-s2" and v.get("s2_fault") == sig.get("s2_fault") == "limit")
+    return False
 
 
 def model_lines(case, impl):
